@@ -458,18 +458,41 @@ func (c *caseRun) violate(key, what string, more map[string]any) {
 	rep.Violation(key, what, w)
 }
 
-// fastFail shortens the liveness watchdogs once a violation has been recorded,
-// so that a broken tree is reported within the tier's budget (later hits of the
-// same class only add to its count).
+// fastFail is set once any violation has been recorded (it only silences the
+// "nothing observed" inconclusive checks at the end). Liveness watchdogs are
+// shortened per class: once a class of hang has been witnessed with the full
+// bound, later cases of the same class (same violation key) wait only briefly,
+// so that a broken tree is reported within the tier's budget.
 var fastFail atomic.Bool
 
 func noteViolation() { fastFail.Store(true) }
 
-func watchdog(normal time.Duration) time.Duration {
-	if fastFail.Load() {
-		return 300 * time.Millisecond
+var fastClass sync.Map
+
+func wd(class string, normal time.Duration) time.Duration {
+	if _, ok := fastClass.Load(class); ok {
+		return 100 * time.Millisecond
 	}
 	return normal
+}
+
+func wdExpired(class string) { fastClass.Store(class, true) }
+
+// shortSeen counts cases in which fewer upstream calls than expected showed up
+// within the watchdog. Such a case is never judged by that timeout (the verdict
+// is taken from the final call count at the next quiescent point); the count
+// only shortens the wait for the following cases so that a tree with a wrong
+// clamp is reported quickly.
+var shortSeen atomic.Int64
+
+func entryWatchdog() time.Duration {
+	switch n := shortSeen.Load(); {
+	case n >= 4:
+		return 40 * time.Millisecond
+	case n >= 1:
+		return 300 * time.Millisecond
+	}
+	return 5 * time.Second
 }
 
 var errCustomCause = errors.New("c14: caller gave up (custom cause)")
@@ -643,18 +666,24 @@ func runCase(cd *caseDesc, fwd *fastforward.Forward, ups []*memUp) *caseRun {
 	}()
 
 	execW := func(why, key string, stillBlocked int) bool {
-		if c.wait(watchdog(10*time.Second), func() bool { return c.execDone }) {
+		w := wd(key, 10*time.Second)
+		if c.wait(w, func() bool { return c.execDone }) {
 			return true
 		}
-		c.violate(key, fmt.Sprintf("Exec had not returned %v after %s while %d queried upstream(s) were still held by the harness", watchdog(10*time.Second), why, stillBlocked), nil)
+		wdExpired(key)
+		c.violate(key, fmt.Sprintf("Exec had not returned %v after %s while %d queried upstream(s) were still held by the harness", w, why, stillBlocked), nil)
 		return false
 	}
 
 	// ---- all queried upstreams must have been entered before the script starts ----
 	if cd.Mode == "auto" {
-		c.wait(watchdog(10*time.Second), func() bool { return c.deliveredTotal >= n && c.execDone })
-	} else if !c.wait(watchdog(5*time.Second), func() bool { return len(c.invs) >= n }) {
+		if !c.wait(wd("auto", 10*time.Second), func() bool { return c.deliveredTotal >= n && c.execDone }) {
+			wdExpired("auto")
+			c.short = true
+		}
+	} else if !c.wait(entryWatchdog(), func() bool { return len(c.invs) >= n }) {
 		c.short = true
+		shortSeen.Add(1)
 	}
 	c.mu.Lock()
 	invs := append([]*invocation(nil), c.invs...)
@@ -735,13 +764,14 @@ func runCase(cd *caseDesc, fwd *fastforward.Forward, ups []*memUp) *caseRun {
 		released++
 	}
 	waitDelivered := func(target int, never bool) bool {
-		w := watchdog(10 * time.Second)
+		w := wd("helper-goroutine-stuck", 10*time.Second)
 		if never {
 			w = 70 * time.Second
 		}
 		if c.wait(w, func() bool { return c.deliveredTotal >= target }) {
 			return true
 		}
+		wdExpired("helper-goroutine-stuck")
 		c.mu.Lock()
 		dt := c.deliveredTotal
 		c.mu.Unlock()
@@ -755,7 +785,9 @@ func runCase(cd *caseDesc, fwd *fastforward.Forward, ups []*memUp) *caseRun {
 		for _, inv := range slots {
 			release(inv, oErr)
 		}
-		c.wait(watchdog(10*time.Second), func() bool { return c.execDone })
+		if !c.wait(wd("unwind", 10*time.Second), func() bool { return c.execDone }) {
+			wdExpired("unwind")
+		}
 	case cd.Mode == "storm":
 		// no ordering: everything at once, ctx (if scripted) somewhere in between
 		for k, s := range cd.Order {
@@ -804,8 +836,13 @@ func runCase(cd *caseDesc, fwd *fastforward.Forward, ups []*memUp) *caseRun {
 			release(inv, oErr)
 		}
 	}
-	c.wait(watchdog(10*time.Second), func() bool { return c.deliveredTotal >= len(slots) })
-	done := c.wait(watchdog(20*time.Second), func() bool { return c.execDone })
+	if !c.wait(wd("unwind", 10*time.Second), func() bool { return c.deliveredTotal >= len(slots) }) {
+		wdExpired("unwind")
+	}
+	done := c.wait(wd("unwind", 20*time.Second), func() bool { return c.execDone })
+	if !done {
+		wdExpired("unwind")
+	}
 	c.mu.Lock()
 	c.finished = true
 	execErr := c.execErr
